@@ -149,4 +149,33 @@ PROPS = {
                          'syntax_error / indentation_error / blank_source constructors: abstract (ghost counters); their line '
                          'arithmetic is bounded only', 'str.strip uninterpreted'],
     },
+    'C16': {
+        'sidecars': ['contracts/c16_proxy.py'],
+        'native': 'c16',
+        'level': 'other',
+        'explanation': 'Every arithmetic, bitwise, shift, comparison, conversion, unary, indexing, membership and length '
+                       'method of SandboxResult (55 functions, contracts generated from a table typed from the statement) is '
+                       'verified from its real source over the operator theory: it applies the right operation to the '
+                       'unwrapped operands in the right order, returns a proxy (or, where the protocol demands it, the raw '
+                       'result), never the NotImplemented sentinel, and prints nothing (frame of the ghost `printed`). The '
+                       'theory treats an operation on raw values as a total uninterpreted function, so "fails iff the raw '
+                       'operation fails" and equality with CPython are decided only by the exhaustive bounded product B-ops '
+                       '(34 binary/45 unary-style operations x 15 value classes x 3 placements).',
+        'trusted_base': ['operator theory A-ops (total uninterpreted operations; never return a proxy)',
+                         '_clone_this_result / is_sandbox_result / __getattribute__ magic of the proxy: assumed, B-ops'],
+    },
+    'C07': {
+        'sidecars': ['contracts/c07_assertions.py'],
+        'native': 'c07', 'ground': False,
+        'level': 'other',
+        'explanation': 'The condition of each ordering, length, membership, identity, None-ness and truthiness assertion is '
+                       'verified from its real source against a relation table typed from the statement, over the operator '
+                       'theory (the raw comparison is an uninterpreted function, so `left >= right` and `not (left < right)` '
+                       'are different terms), including the unwrapping of proxied operands; errors() by a loop invariant. '
+                       'Equality (tolerance, string normalisation, containers), instance/type/regex/output assertions, the '
+                       '"cannot be evaluated counts as failing" rule of RuntimeAssertionFeedback and unit_test are decided '
+                       'only by the bounded stand-in B-ops(assertions) on real proxies from a real Sandbox.',
+        'trusted_base': ['operator theory A-ops; lengths are integers, whose order relations are complementary',
+                         'RuntimeAssertionFeedback.__init__/_handle_condition, equality_test, unit_test: bounded only'],
+    },
 }
